@@ -13,7 +13,7 @@ FILES = {
     "pkg/collector/clock.go": ["C10"],
     "pkg/exporter/process.go": ["C09", "C08", "C02", "C14", "C18", "C01"],
     "pkg/exporter/msg.go": ["C02", "C08", "C09", "C14"],
-    "pkg/entities/ie.go": ["C15", "C02", "C01", "C09", "C19"],
+    "pkg/entities/ie.go": ["C15", "C02", "C01", "C09", "C19", "C03", "C04", "C17", "C11"],
     "pkg/entities/ie_value.go": ["C15", "C16", "C02", "C05"],
     "pkg/entities/record.go": ["C16", "C15", "C09", "C02", "C07"],
     "pkg/entities/set.go": ["C16", "C02", "C01"],
